@@ -120,7 +120,7 @@ m('C11', P, '\t\tif err != nil {\n\t\t\treturn keys, err\n\t\t}\n\t\tkeys = appe
 
 # ---------------- C12
 m('C12', I, '\t\t\tcs.initStreamErr = err\n\t\t\tcs.Unlock()\n\t\t\tcs.cond.Broadcast()\n\t\t\treturn err', '\t\t\tcs.initStreamErr = err\n\t\t\tcs.Unlock()\n\t\t\treturn err', 'no broadcast on the error path')
-m('C12', I, '\tfor cs.initStreamErr == nil && cs.ClientStream == nil {\n\t\tcs.cond.Wait()\n\t}', '\tif cs.initStreamErr == nil && cs.ClientStream == nil {\n\t\tcs.cond.Wait()\n\t}', 'if instead of for around Wait')
+m('C12', I, '\tfor cs.initStreamErr == nil && cs.ClientStream == nil {\n\t\tif err := cs.ctx.Err(); err != nil {', '\tif cs.initStreamErr == nil && cs.ClientStream == nil {\n\t\tif err := cs.ctx.Err(); err != nil {', 'if instead of for around Wait')
 m('C12', I, '\t\treqMsg:   req,\n\t\treplyMsg: reply,', '\t\treqMsg:   req,', 'reply object not handed to the picker')
 m('C12', I, 'return invoker(ctx, method, req, reply, cc, opts...)', 'return invoker(ctx, method, req, reply, cc)', 'call options dropped')
 m('C12', I, '&gcpContext{reqMsg: m}', '&gcpContext{}', 'first message not visible to the picker')
@@ -214,6 +214,11 @@ m('C07', P, '\tif scRef.deCallsInc() >= p.gb.cfg.GetChannelPool().GetUnresponsiv
 m('C19', CS, '\tlog.Printf("Marshalled bytes: %+v\\n", bytes)', '\tlog.Printf("Marshalled bytes: %+v\\n", append(bytes[:0], bytes...))', 'payload used as an append destination (in-place rewrite of the wrapped encoding)')
 m('C07', B, 'gb.unresponsiveDetection = cp.GetUnresponsiveCalls() > 0 && cp.GetUnresponsiveDetectionMs() > 0', 'gb.unresponsiveDetection = !(cp.GetUnresponsiveCalls() == 0 && cp.GetUnresponsiveDetectionMs() == 0)', 'detection enabled with only one threshold configured (seed C07 wave 2)')
 m('C07', B, 'gb.unresponsiveDetection = cp.GetUnresponsiveCalls() > 0 && cp.GetUnresponsiveDetectionMs() > 0', 'gb.unresponsiveDetection = !(cp.GetUnresponsiveCalls() == 0 || cp.GetUnresponsiveDetectionMs() < 1)', 'enable condition by De Morgan', 'silent')
+
+# ---------------- after the RecvMsg context fix (42c1430)
+m('C12', I, '\t\tif err := cs.ctx.Err(); err != nil {\n\t\t\tcs.Unlock()\n\t\t\treturn status.FromContextError(err).Err()\n\t\t}\n', '\t\tif err := cs.ctx.Err(); err != nil && false {\n\t\t\tcs.Unlock()\n\t\t\treturn status.FromContextError(err).Err()\n\t\t}\n', 'wait loop no longer leaves when the context is done (F13 returns)')
+m('C12', I, '\t\t\t\tcase <-cs.ctx.Done():\n\t\t\t\t\tcs.Lock()\n\t\t\t\t\tcs.cond.Broadcast()\n\t\t\t\t\tcs.Unlock()\n', '\t\t\t\tcase <-cs.ctx.Done():\n', 'waker goroutine does not wake the waiter')
+m('C12', I, '\t\t\t\tcase <-cs.ctx.Done():\n\t\t\t\t\tcs.Lock()\n\t\t\t\t\tcs.cond.Broadcast()\n\t\t\t\t\tcs.Unlock()\n', '\t\t\t\tcase <-cs.ctx.Done():\n\t\t\t\t\tcs.cond.Broadcast()\n', 'waker broadcasts without the lock (wake-up can be lost between the test and the wait)')
 
 json.dump(T, open('/verif/checker/mutants.json', 'w'), indent=0)
 print(len(T), 'mutants')
